@@ -43,17 +43,16 @@ def override_mathjax(app: Sphinx):
     Therefore, we tell Mathjax to only render these HTML elements.
     This is accompanied by setting the `ignoreClass` on the top-level section of each MyST document.
     """
-    if (
-        "amsmath" in app.config["myst_enable_extensions"]
-        and "mathjax" in app.registry.html_block_math_renderers
-    ):
+    # Note, this does not depend on the global `myst_enable_extensions`,
+    # since amsmath and dollarmath can also be enabled in a document's front matter:
+    # the visitor defers to sphinx for all but amsmath nodes, and `processHtmlClass`
+    # only matters within the sections that the renderer marks with the ignore classes.
+    if "mathjax" in app.registry.html_block_math_renderers:
         app.registry.html_block_math_renderers["mathjax"] = (
             html_visit_displaymath,
             None,
         )
 
-    if "dollarmath" not in app.config["myst_enable_extensions"]:
-        return
     if not app.env.myst_config.update_mathjax:  # type: ignore[attr-defined]
         return
 
